@@ -932,12 +932,15 @@ class Injected(BaseException):
 def stream_fault(ctx):
     import jedi
     rng = ctx.subrng('fault')
-    progs = programs(ctx, rng, ctx.size(6, 80))
-    for label, src, positions in progs:
+    progs = [(label, src, positions, None) for label, src, positions in programs(ctx, rng, ctx.size(6, 80))]
+    # exceptions in the middle of a dynamic parameter lookup
+    dyn = DP.fixed_programs() + [('dyn-%d' % i,) + DP.gen_program(rng) for i in range(ctx.size(2, 30))]
+    progs += [(label, src, [(l, c) for (k, f, l, c) in queries], 'infer') for label, src, queries, meta in dyn]
+    for label, src, positions, only in progs:
         if not positions:
             continue
         line, col = rng.choice(positions)
-        q = rng.choice(['infer', 'goto', 'get_references', 'complete'])
+        q = only or rng.choice(['infer', 'goto', 'get_references', 'complete'])
         with C15.InferCounter() as counter:
             script = jedi.Script(src)
             k0, v0, _ = C15.guarded(lambda: run_query(jedi.Script(src), q, line, col), 30)
@@ -1055,6 +1058,8 @@ def run(ctx):
             ctx.tie_broken('hook:' + e.what, e.detail)
         timed('subproc', stream_subproc, ctx, pcache)
     ctx.notes.append('wall per stream: ' + ' '.join(walls))
+    ctx.notes.append('string hash randomisation of this (parent) process: %s; the subprocesses of stream subproc run under '
+                     'fixed PYTHONHASHSEED values' % ('on' if sys.flags.hash_randomization else 'off'))
     if ctx.model_ok:
         answers = common.run_driver_parallel('C16', reqs)
         compare(ctx, cases, answers)
@@ -1080,7 +1085,7 @@ def replay(ctx, payload):
     import jedi
     inp = payload['input']
     if 'session' in inp:
-        with SearchHook():
+        with PrivateCache(), SearchHook():
             s = jedi.Script(inp['source'])
             ndiff = 0
             for i, qq in enumerate(inp['session']):
